@@ -7,3 +7,35 @@ From Verif Require Import Base.Val C25.Path_C25 C25.Model_C25 C25.Spec_C25 C25.P
 Theorem empty_archive : of_members [] = Ok [].
 Proof. exact empty_archive_proof. Qed.
 Print Assumptions empty_archive.
+
+(* the "./"-prefixed member name (and hardlink name) written for a location is read back as that location *)
+Theorem name_roundtrip : forall l, plain_loc l ->
+  loc_of_name (member_name l) = l /\ loc_of_link (member_name l) = l
+  /\ strip_sl (member_name l) <> dot.
+Proof. exact name_roundtrip_proof. Qed.
+Print Assumptions name_roundtrip.
+
+(* THE ROUND TRIP, for every contents set of the kind a scan of a directory tree yields (distinct
+   normalised paths, no entry beneath a symlink, parents present), in any iteration order, of any
+   size: reading back what was written succeeds, returns exactly the written entries with equal
+   path/type/mode/owner/mtime/target/data/device, and two files share an inode afterwards iff they
+   were the same file (same path or same known (dev,inode)) before. *)
+Theorem tar_roundtrip : forall c, wf c -> flat c -> parents_closed c ->
+  exists r, of_members (to_members c) = Ok r /\ roundtrip_ok c r.
+Proof. exact tar_roundtrip_proof. Qed.
+Print Assumptions tar_roundtrip.
+
+(* read side alone, for the entries of ANY archive: a flat, parent-closed set of distinct plain
+   locations is only reordered by convert_archive (nothing rewritten, nothing added) *)
+Theorem read_flat_reorders : forall raw,
+  NoDup (map loc raw) -> plain_locs raw -> flat_d raw -> closed_d raw ->
+  exists r, convert raw = Ok r /\ Permutation r raw.
+Proof. exact convert_flat. Qed.
+Print Assumptions read_flat_reorders.
+
+(* the full statement about symlinked directories ("resolved as for a live merge": afterwards nothing
+   lies beneath a symlink) is false of the faithful model for chains of directory symlinks
+   (known finding symdir-chain; witness replayed on the implementation by the check) *)
+Theorem symdirs_resolved_refuted : ~ symdirs_resolved_full_statement.
+Proof. exact symdirs_resolved_refuted_proof. Qed.
+Print Assumptions symdirs_resolved_refuted.
